@@ -31,6 +31,8 @@ CONSTANTS MaxLeaves,       \* leaves per composite
           AllowFault,      \* BOOLEAN: one fs command may raise
           AllowStop,       \* BOOLEAN: the task handle may be stopped
           AllowNatural,    \* BOOLEAN: a leaf may fail on its own (missing file..)
+          FullHistory,     \* BOOLEAN: the call starts with the undo list at its limit (limit 1, one entry, no
+                           \* redo): a recorded change replaces the oldest entry, a failed one drops nothing
           AllowPreEdit     \* BOOLEAN: between building/previewing the change and performing it, a file
                            \* may be edited (the call must restore the contents of just before the call)
 
@@ -94,7 +96,7 @@ Init ==
   /\ faultAt = 0
   /\ cause = ""
   /\ result = "none"
-  /\ hist = IF dir = "do" THEN <<1, 1>> ELSE <<2, 0>>
+  /\ hist = IF dir = "do" THEN (IF FullHistory THEN <<1, 0>> ELSE <<1, 1>>) ELSE <<2, 0>>
   /\ hist0 = hist
   /\ pre = IF dir = "do" /\ AllowPreEdit THEN <<"-">> ELSE << >>
   /\ ops = << >>
@@ -162,7 +164,7 @@ EndOkDo ==
   /\ Len(cs) >= 1
   /\ phase' = "end"
   /\ result' = "ok"
-  /\ hist' = <<hist[1] + 1, 0>>
+  /\ hist' = IF FullHistory THEN <<1, 0>> ELSE <<hist[1] + 1, 0>>
   /\ UNCHANGED <<tree, init, snap0, cs, olds, dir, i, done, rb, stopped, stopAt,
                  faultAt, cause, hist0, pre, ops>>
 
